@@ -176,7 +176,7 @@ def collect_as_str(F, it):
     return out
 
 
-def panic_obligations(F, res, roots, prop_rows, cg=None, grammar=None, crates=None, rule="PANIC", skip_fn=None):
+def panic_obligations(F, res, roots, prop_rows, cg=None, grammar=None, crates=None, rule="PANIC", skip_fn=None, extra=()):
     """shared by C12/C13/C14/C16/C11: inventory + discharge; returns sites"""
     cg = cg or CallGraph(F)
     reach, n_fns, sites = e1.inventory(F, cg, roots, crates=crates)
@@ -224,6 +224,11 @@ def panic_obligations(F, res, roots, prop_rows, cg=None, grammar=None, crates=No
                 by = "D-TEXT: " + by
         if by is None:
             by = discharge.try_all(f, du, cfg, s)
+        if by is None:
+            for ex in extra:
+                by = ex(s)
+                if by:
+                    break
         if by is None and key in rows:
             by = "D-TABLE: " + rows[key]
             used_rows.add(key)
@@ -243,10 +248,47 @@ def panic_obligations(F, res, roots, prop_rows, cg=None, grammar=None, crates=No
     return reach, sites
 
 
-def loop_obligations(F, res, reach, crates=("tx3_lang",), rule="LOOP"):
+def _copy_root(f, du, l, depth=0):
+    ds = du.defs.get(l, [])
+    if depth < 6 and len(ds) == 1 and ds[0][0] == "stmt" and ds[0][3]["rv"]["k"] == "use":
+        pl = mir.op_place(ds[0][3]["rv"]["op"])
+        if pl is not None and not pl["p"]:
+            return _copy_root(f, du, pl["l"], depth + 1)
+    return l
+
+
+def _counter_root(f, du, l, body):
+    """is local l (a copy of) a counter that is incremented by a literal inside the loop body?"""
+    root = _copy_root(f, du, l)
+    for d in du.defs.get(root, []):
+        if d[0] != "stmt" or d[1] not in body:
+            continue
+        r = d[3]["rv"]
+        if r["k"] == "use":
+            pl = mir.op_place(r["op"])
+            if pl is not None and pl["p"]:
+                for d2 in du.defs.get(pl["l"], []):
+                    if d2[0] == "stmt" and d2[3]["rv"]["k"] == "binop" and d2[3]["rv"]["op"] in ("AddWithOverflow", "Add"):
+                        a2 = mir.op_place(d2[3]["rv"]["a"])
+                        if a2 is not None and _copy_root(f, du, a2["l"]) == root and discharge._const_int(f, du, d2[3]["rv"]["b"]) == 1:
+                            return True
+        if r["k"] == "binop" and r["op"] == "Add":
+            a2 = mir.op_place(r["a"])
+            if a2 is not None and _copy_root(f, du, a2["l"]) == root and discharge._const_int(f, du, r["b"]) == 1:
+                return True
+    return False
+
+
+LOOP_ROWS = {}
+
+
+def loop_obligations(F, res, reach, crates=("tx3_lang",), rule="LOOP", rows=None):
+    LOOP_ROWS.clear()
+    for r in (rows or []):
+        LOOP_ROWS[r["key"]] = r["reason"]
     n = 0
     for p in sorted(reach):
-        f = F.fns[p]
+        f = F.built.get(p, F.fns[p])
         if f["crate"] not in crates or is_derive(f):
             continue
         cfg = mir.CFG(f)
@@ -260,10 +302,17 @@ def loop_obligations(F, res, reach, crates=("tx3_lang",), rule="LOOP"):
             n += 1
             key = "%s|loop" % p
             it_next = False
+            awaits = False
             for b in body:
                 t = f["blocks"][b]["t"]
                 if t["k"] == "call" and t.get("trait") == "std::iter::Iterator" and t.get("method") in ("next", "next_back"):
                     it_next = True
+                if t["k"] == "yield":
+                    awaits = True
+            polls = any(f["blocks"][b]["t"]["k"] == "call" and (f["blocks"][b]["t"].get("callee") or "") == "std::future::Future::poll" for b in body)
+            inner_await = awaits and polls and not any(
+                f["blocks"][b]["t"]["k"] == "call" and not (f["blocks"][b]["t"].get("callee") or "").startswith(("std::future::", "std::pin::", "std::task::", "std::ops::Try", "std::ops::FromResidual"))
+                and not site_in_derive("") and "desugar:Await" not in f["blocks"][b]["t"].get("exp", "") for b in body)
             bounded = False
             if not it_next:
                 for b in body:
@@ -272,9 +321,23 @@ def loop_obligations(F, res, reach, crates=("tx3_lang",), rule="LOOP"):
                         if rv["k"] == "binop" and rv["op"] in ("Lt", "Le", "Gt", "Ge"):
                             if discharge._const_int(f, du, rv["b"]) is not None or discharge._const_int(f, du, rv["a"]) is not None:
                                 bounded = True
+                            else:
+                                # counter (only ever `+= 1` inside the loop) compared with a loop-invariant value
+                                for side, other in (("a", "b"), ("b", "a")):
+                                    pa, po = mir.op_place(rv[side]), mir.op_place(rv[other])
+                                    if pa is None or po is None:
+                                        continue
+                                    cnt = _counter_root(f, du, pa["l"], body)
+                                    inv = all(d[1] not in body for d in du.defs.get(_copy_root(f, du, po["l"]), [])) 
+                                    if cnt and inv:
+                                        bounded = True
             w = where(f, f["blocks"][h]["t"].get("line"))
             if it_next:
                 res.add([ok(rule, key, w, "iterator-driven loop")])
+            elif inner_await:
+                res.add([ok(rule, key, w, "await point: poll/yield loop of an awaited future (progress is the awaited future's: store = trusted interface)")])
+            elif key in LOOP_ROWS:
+                res.add([ok(rule, key, w, "D-TABLE: " + LOOP_ROWS[key])])
             elif bounded:
                 res.add([ok(rule, key, w, "loop guarded by a comparison against a literal bound")])
             else:
